@@ -7,6 +7,8 @@
 (*                                                                         *)
 (*   thread steps   IoIter        one iteration of Node._handle_connections*)
 (*                  RdStep(c)     PeerConnection.work_read_queue: one chunk*)
+(*                  StopStep      Node.stop() in its caller's thread, from *)
+(*                                one sleep / join to the next             *)
 (*                  WrStep(c)     PeerConnection.work_write_queue: one msg *)
 (*   environment    EnvConnect, EnvFeed, EnvPeerClose, EnvPeerReset,       *)
 (*                  EnvConnectResult, EnvTick, AppSubmit, ...              *)
@@ -91,6 +93,9 @@ InitState ==
    held |-> <<>>,                          \* requests delivered to "hold" applications: [a, c, m, answered]
    overflow |-> FALSE,                     \* the instance's MaxConn bound cut a dial short (such states are discarded)
    dialPlan |-> <<>>,                      \* outcomes the environment will give to the next connect() calls
+   \* the thread that called Node.stop(): phase none | begin | wait | joinio | joinstats | done
+   stop |-> [phase |-> "none", force |-> FALSE, wait |-> 0, until |-> 0, wake |-> 0, ioStop |-> FALSE],
+   listen |-> "open",                      \* the listening socket
    out |-> <<>>]
 
 Emit(S, e) == [S EXCEPT !.out = Append(@, e)]
@@ -400,6 +405,10 @@ IoEnabled(S) ==
      \/ \E i \in 1..Len(S.io.wlist) : Writable(S, S.io.wlist[i])
      \/ S.now >= S.io.deadline
 
+\* nothing left to transmit: the write buffer is empty and no message waits in the write queue
+\* (pinned F18c: only the buffer was looked at, a queued message was lost with the socket)
+Drained(S, c) == S.conn[c].wbuf = <<>> /\ ("F18c" \in Pinned \/ S.conn[c].writeQ = <<>>)
+
 \* interrupt pipe: one connection id per iteration
 IoPipe(S) ==
   IF S.pipe = <<>> THEN S
@@ -407,7 +416,7 @@ IoPipe(S) ==
            S1 == [S EXCEPT !.pipe = Tail(@)]
        IN IF ~InSeq(c, S1.connections) THEN S1
           ELSE IF S1.conn[c].st = "CLOSED" THEN CloseConnectionSocket(S1, c, R_CLEAN)
-          ELSE IF S1.conn[c].wbuf = <<>> /\ S1.conn[c].st = "CLOSING" THEN CloseConnectionSocket(S1, c, R_CLEAN)
+          ELSE IF Drained(S1, c) /\ S1.conn[c].st = "CLOSING" THEN CloseConnectionSocket(S1, c, R_CLEAN)
           ELSE S1
 
 \* listening socket: one accept per iteration
@@ -449,10 +458,10 @@ IoWrite(S, c) ==
        IN IF k.st = "CONNECTING" /\ k.soErr # 0 THEN S1
           ELSE LET k1 == S1.conn[c] IN
                IF k1.wbuf = <<>>
-               THEN IF k1.st = "CLOSING" THEN CloseConnectionSocket(S1, c, R_CLEAN) ELSE S1
+               THEN IF k1.st = "CLOSING" /\ Drained(S1, c) THEN CloseConnectionSocket(S1, c, R_CLEAN) ELSE S1
                ELSE IF k1.sock = "closed" THEN ConnClose(S1, c, TRUE)          \* send on a closed socket: hard error -> conn.close()
                ELSE LET S2 == EmitTx([S1 EXCEPT !.conn[c].wbuf = <<>>], c, k1.wbuf)
-                    IN IF S2.conn[c].st = "CLOSING" THEN CloseConnectionSocket(S2, c, R_CLEAN) ELSE S2
+                    IN IF S2.conn[c].st = "CLOSING" /\ Drained(S2, c) THEN CloseConnectionSocket(S2, c, R_CLEAN) ELSE S2
 RECURSIVE IoWrites(_, _)
 IoWrites(S, cs) == IF cs = <<>> THEN S ELSE IoWrites(IoWrite(S, Head(cs)), Tail(cs))
 
@@ -511,6 +520,12 @@ SelectLists(S) ==
       wlist |-> SelectSeq(live, LAMBDA c : S.conn[c].st = "CONNECTING" \/ (S.conn[c].st # "CLOSED" /\ S.conn[c].wbuf # <<>>)),
       deadline |-> S.now + NodeCfg.wakeup, done |-> FALSE]
 
+\* the stop branch at the top of the loop: close every connection, let the workers wind down, leave
+RECURSIVE ShutdownConns(_, _)
+ShutdownConns(S, cs) == IF cs = <<>> THEN S
+                        ELSE ShutdownConns(ConnClose(CloseConnectionSocket(S, Head(cs), R_SHUTDOWN), Head(cs), FALSE), Tail(cs))
+IoShutdown(S) == [ShutdownConns(S, S.connections) EXCEPT !.io.done = TRUE]
+
 IoIter(S) ==
   LET rr == SelectSeq(S.io.rlist, LAMBDA c : Readable(S, c))
       ww == SelectSeq(S.io.wlist, LAMBDA c : Writable(S, c))
@@ -520,7 +535,38 @@ IoIter(S) ==
       S4 == IoWrites(S3, ww)
       S5 == IoTimers(S4, S4.connections)
       S6 == Reconnect(S5, PeerOrder)
-  IN [S6 EXCEPT !.io = SelectLists(S6)]
+  IN IF S6.stop.ioStop THEN IoShutdown(S6)        \* loop top: _thread.is_stopped
+     ELSE [S6 EXCEPT !.io = SelectLists(S6)]
+
+\* ------------------------------------------------------------------ Node.stop (runs in the caller's thread)
+\* send_dpr: DISCONNECTING first, then the request (cause REBOOTING)
+SendDpr(S, c) == SendNodeRequest([S EXCEPT !.conn[c].st = "DISCONNECTING"], c, "DP", 282)
+RECURSIVE StopDprs(_, _)
+StopDprs(S, cs) == IF cs = <<>> THEN S
+                   ELSE StopDprs(IF S.conn[Head(cs)].st \in READYSTATES THEN SendDpr(S, Head(cs)) ELSE S, Tail(cs))
+\* the wait loop's test: sleep another second, or go on to stop the I/O thread and join it
+StopWaitOrJoin(S) ==
+  IF ~S.stop.force /\ S.connections # <<>> /\ S.now < S.stop.until
+  THEN [S EXCEPT !.stop.phase = "wait", !.stop.wake = S.now + 1]
+  ELSE [S EXCEPT !.stop.phase = "joinio", !.stop.ioStop = TRUE, !.stop.wake = S.now + NodeCfg.wakeup + 1]
+StopEnabled(S) ==
+  CASE S.stop.phase = "begin"     -> TRUE
+    [] S.stop.phase = "wait"      -> S.now >= S.stop.wake
+    [] S.stop.phase = "joinio"    -> S.io.done \/ S.now >= S.stop.wake
+    [] S.stop.phase = "joinstats" -> S.now >= S.stop.wake
+    [] OTHER -> FALSE
+StopStep(S) ==
+  CASE S.stop.phase = "begin" ->
+         LET S1 == [S EXCEPT !.life = "stopping", !.stop.until = S.now + S.stop.wait]
+             S2 == IF S.stop.force THEN S1 ELSE StopDprs(S1, S1.connections)
+         IN StopWaitOrJoin(S2)
+    [] S.stop.phase = "wait" -> StopWaitOrJoin(S)
+    \* the statistics thread sleeps 2 s at a time (from start, t = 0): join(2) returns at its next wake-up
+    [] S.stop.phase = "joinio" -> [S EXCEPT !.stop.phase = "joinstats", !.stop.wake = IF S.now % 2 = 0 THEN S.now + 2 ELSE S.now + 1]
+    \* listening sockets closed, applications stopped, stop() returns
+    [] S.stop.phase = "joinstats" ->
+         Emit([S EXCEPT !.stop.phase = "done", !.listen = "closed"],
+              [ev |-> "stop_done", r |-> "ok", listen |-> 0, nodeThreads |-> IF S.io.done THEN 0 ELSE 1])
 
 \* ------------------------------------------------------------------ retained state (C19)
 RECURSIVE SumIds(_)
@@ -542,11 +588,12 @@ Idle(S) == /\ S.connections = <<>> /\ S.backlog = <<>> /\ S.pipe = <<>>
 RdReady(S) == {c \in ConnIds : RdEnabled(S, c)}
 WrReady(S) == {c \in ConnIds : WrEnabled(S, c)}
 Min(s) == CHOOSE x \in s : \A y \in s : x <= y
-AnyEnabled(S) == RdReady(S) # {} \/ WrReady(S) # {} \/ IoEnabled(S) \/ SndReady(S) # {}
+AnyEnabled(S) == RdReady(S) # {} \/ WrReady(S) # {} \/ IoEnabled(S) \/ SndReady(S) # {} \/ StopEnabled(S)
 StepPrio(S) == IF RdReady(S) # {} THEN RdStep(S, Min(RdReady(S)))
                ELSE IF WrReady(S) # {} THEN WrStep(S, Min(WrReady(S)))
                ELSE IF IoEnabled(S) THEN IoIter(S)
-               ELSE SndStep(S, Min(SndReady(S)))
+               ELSE IF SndReady(S) # {} THEN SndStep(S, Min(SndReady(S)))
+               ELSE StopStep(S)
 RECURSIVE QuiesceN(_, _)
 QuiesceN(S, n) == IF n = 0 \/ ~AnyEnabled(S) THEN S ELSE QuiesceN(StepPrio(S), n - 1)
 Quiesce(S) == QuiesceN(S, 200)
@@ -559,6 +606,7 @@ EnvPeerClose(S, c) == [S EXCEPT !.conn[c].remoteClosed = TRUE]
 EnvPeerReset(S, c) == [S EXCEPT !.conn[c].recvErr = TRUE]
 EnvConnectResult(S, c, err) == [S EXCEPT !.conn[c].connecting = FALSE, !.conn[c].soErr = err]
 EnvTick(S) == [S EXCEPT !.now = @ + 1]
+EnvStop(S, force, wait) == [S EXCEPT !.stop.phase = "begin", !.stop.force = force, !.stop.wait = wait]
 EnvStart(S) ==        \* Node.start(): dial persistent peers
   LET RECURSIVE Dial(_, _)
       Dial(St, ps) == IF ps = <<>> THEN St
